@@ -15,7 +15,7 @@ use crate::sim::stream::{Faults, StreamOpts};
 pub const SPEC: PropSpec = PropSpec {
     id: "C08",
     level: "fault_enumeration",
-    rule: "seeded fault schedules over 2-15 virtual minutes on 2-4 uplinks (real handshake, real arms, virtual clock, light data traffic, housekeeping every 1000-1100 ms, flush every 15 ms), connection timeout in {1000,1001,2500,5000,15000,60000}, both modes: per link 2-8 phases drawn from all fault kinds {silent black-hole, no return path, lost handshake replies only, socket send error (EPIPE), binder failing (incl. a 500 s failure that drives the back-off to its 120 s plateau)} each followed by a repair, plus group-wide events {receiver restart answering REG_NGP or transient REG_ERR, all links down and back}. Monitor: D1/D2 a connected link is torn down only if the monitor's own log shows no datagram delivered to it for the timeout, or a send error was armed, or REG_ERR arrived - never while only gated / latched; D3 a silent link is torn down by the first housekeeping arm at which the back-off allows; D4 consecutive attempts >= 1 s apart before the first establishment, >= 5 s after, never more than 120 s (+ housekeeping period) while down; D5 once a link's own faults are repaired (and no group-wide disturbance is in progress) it is connected within 30 s (+ the back-off in force at repair), rejoining with window 20000, in-flight 0, warming(0); D6 throughout, the C01 delivery oracle holds for every accepted datagram. Fault kinds are enumerated exhaustively, schedules are sampled. Non-trivial = schedule with >= 1 fault and >= 1 rejoin; distinct = distinct 6-grams of (arm kind x regime x gate x link-down).",
+    rule: "seeded fault schedules over 2-15 virtual minutes on 2-4 uplinks (real handshake, real arms, virtual clock, light data traffic, housekeeping every 1000-1100 ms, flush every 15 ms), connection timeout in {1000,1001,2500,5000,15000,60000}, both modes: per link 2-8 phases drawn from all fault kinds {silent black-hole, no return path, lost handshake replies only, socket send error (EPIPE), binder failing (incl. a 500 s failure that drives the back-off to its 120 s plateau)} each followed by a repair, plus group-wide events {receiver restart answering REG_NGP or transient REG_ERR, all links down and back}. Monitor: D1/D2 a connected link is torn down only if the monitor's own log shows no datagram delivered to it for the timeout, or a send error was armed, or REG_ERR arrived - never while only gated / latched; D3 a silent link is torn down by the first housekeeping arm at which the back-off allows; D4 consecutive attempts >= 1 s apart before the first establishment, >= 5 s after, never more than 120 s (+ housekeeping period) while down; D5 once a link's own faults are repaired (and no group-wide disturbance is in progress) it is connected within 30 s (+ the back-off in force at repair), rejoining with window 20000, in-flight 0, warming(0); D6 throughout, the C01 delivery oracle holds for every accepted datagram. Fault kinds are enumerated exhaustively, schedules are sampled. Non-trivial = schedule with >= 1 fault and >= 1 rejoin; distinct = distinct 6-grams of (arm kind x regime x gate x link-down). E6 live lane (12 sessions quick / 96 thorough): the PRODUCTION run_sender_with_config (real tokio::select! loop, reader tasks with recvmmsg, instant-ACK forwarder, timers, SIGHUP stream, control socket) runs in a real process (vlive) on loopback sockets and the real clock; the harness plays the SRT client, the SRTLA receiver model, path faults, receiver restarts, SIGHUP reloads and hostile return traffic, observes every datagram on both sides with kernel receive timestamps and uses the sender's own stats pushes (one per housekeeping tick) as its logical clock. Live oracles for this property: a connected uplink's socket is never re-opened earlier than the configured timeout after the last datagram the receiver side sent to it (kernel timestamp of the first frame from the new socket vs. the monitor's own send time; not judged where send errors are possible); after a black-hole / no-return fault is repaired the uplink is connected again (REG3 sent and stats connected) within 36 sender ticks, after a receiver restart or a forgotten group (REG_NGP or transient REG_ERR answers) the whole bond within 46; progress bounds are judged only in sessions without scheduling stalls of the harness or the sender.",
     assumptions: &[
         "unbounded 'retried forever' is decided as bounded progress over the finite schedule",
         "faults are modelled above the socket by the sim receiver (drop by path state); send errors by shutdown(Write) on the uplink socket",
@@ -41,6 +41,9 @@ pub const SPEC: PropSpec = PropSpec {
         ("D5.rejoined_clean_checked", 100, 3000),
         ("D2.gated_link_survived_housekeeping", 20, 600),
         ("c01.unique_copy_delivered", 50_000, 1_500_000),
+        ("live.sessions.timing_reliable", 6, 48),
+        ("live.C08.teardown_vs_timeout_checked", 3, 24),
+        ("live.C08.recoveries_observed", 2, 16),
     ],
 };
 
@@ -63,7 +66,21 @@ pub fn run_case(rng: &mut crate::prng::Rng, rep: &mut Report) {
     }
 }
 
+
+use crate::live::Scenario as S;
+/// scenario mix of this property's live lane (E6)
+#[allow(unused_imports)]
+const LIVE_SCENARIOS: &[(S, u32)] = &[(S::BlackHole, 3), (S::NoReturn, 3), (S::Forget { err: false }, 1), (S::Forget { err: true }, 1), (S::Restart, 2)];
+
 pub fn run(cfg: &RunCfg) -> Report {
+    if crate::live::is_live_lane(cfg) {
+        let mut rep = Report::new();
+        crate::live::prop_lane(cfg, &mut rep, "C08", LIVE_SCENARIOS);
+        return rep;
+    }
     let cases = cfg.cases(64, 2400);
-    run_cases(cfg, 0, cases, Duration::from_secs(3600), |_c, rng, rep| run_case(rng, rep))
+    let mut rep = run_cases(cfg, 0, cases, Duration::from_secs(3600), |_c, rng, rep| run_case(rng, rep));
+    // E6: the production event loop in a real process (detection never before the timeout, bounded recovery)
+    crate::live::prop_lane(cfg, &mut rep, "C08", LIVE_SCENARIOS);
+    rep
 }
